@@ -1362,7 +1362,20 @@ pub fn generate(rng: &mut Rng, cfg: &FunCfg) -> FunProg {
             }
             params.insert(1, (g.fresh(), ret.clone(), false));
         }
-        sigs.push(DefSig { name: format!("{}{}", def_names[i % def_names.len()], i), params, ret, pure });
+        // now and then a user definition carries exactly the kind of name the compiler invents for
+        // shared continuations and lifted statements of an earlier definition
+        let name = if cfg.shadow_pct > 0 && g.rng.pct(12) {
+            let earlier = sigs[g.rng.below(sigs.len())].name.clone();
+            match g.rng.below(3) {
+                0 => format!("share_{earlier}_{}", g.rng.below(3)),
+                1 => format!("lift_{earlier}__{}", g.rng.below(40)),
+                _ => format!("share_main_{}", g.rng.below(2)),
+            }
+        } else {
+            format!("{}{}", def_names[i % def_names.len()], i)
+        };
+        let name = if sigs.iter().any(|s: &DefSig| s.name == name) { format!("{name}x{i}") } else { name };
+        sigs.push(DefSig { name, params, ret, pure });
     }
     g.sigs = sigs.clone();
     let mut bodies = Vec::new();
